@@ -156,11 +156,20 @@ def gen_case(rng, max_clients=6, max_ops=6):
       ops.append(['subset', [hx(i) for i in sub]])
     elif r < 0.84:
       kinds = ['add', 'mul', 'addid', 'tail', 'mark', 'yz'] + (['dup'] if ndup < 2 else [])
-      k = rng.choice(kinds)
-      ndup += k == 'dup'
-      ops.append(['prec', [k, rng.randrange(-2, 4)] if k in ('add', 'mul') else [k]])
+      earlier = [o[1] for o in ops if o[0] == 'prec' and (o[1][0] != 'dup' or ndup < 2)]
+      if earlier and rng.random() < 0.35:     # the SAME function (object) registered once more
+        spec = list(rng.choice(earlier))
+      else:
+        k = rng.choice(kinds)
+        spec = [k, rng.randrange(-2, 4)] if k in ('add', 'mul') else [k]
+      ndup += spec[0] == 'dup'
+      ops.append(['prec', spec])
     else:
-      ops.append(['preb', [rng.choice(['add', 'mul', 'ymul']), rng.randrange(-2, 4)]])
+      earlier = [o[1] for o in ops if o[0] == 'preb']
+      if earlier and rng.random() < 0.35:
+        ops.append(['preb', list(rng.choice(earlier))])
+      else:
+        ops.append(['preb', [rng.choice(['add', 'mul', 'ymul']), rng.randrange(-2, 4)]])
   reqs = []
   vis = sorted(_visible(ids, ops))
   for q in range(rng.randrange(1, 4)):
@@ -204,7 +213,13 @@ def _fixed_cases():
       [['subset', []], ['slice', None, None]],               # empty subset
       [['prec', ['add', 1]], ['prec', ['mul', 2]], ['preb', ['add', 3]], ['prec', ['dup']], ['preb', ['mul', -1]], ['prec', ['tail']]],
       [['preb', ['mul', 2]], ['prec', ['addid']], ['slice', a, None], ['prec', ['tail']], ['subset', [a, a0]], ['prec', ['dup']]],
-      [['prec', ['mark']], ['preb', ['add', 1]], ['slice', a, None]],     # a feature added at client level, seen on the empty client a\0\0 too
+      [['prec', ['mark']], ['preb', ['add', 1]], ['slice', a, None]],
+      # the same non-idempotent function object registered repeatedly: adjacent, separated, around view operations
+      [['prec', ['mul', 2]], ['prec', ['mul', 2]]],
+      [['prec', ['add', 1]], ['prec', ['mul', 2]], ['prec', ['add', 1]]],
+      [['prec', ['dup']], ['slice', a, None], ['prec', ['dup']], ['subset', [a, a0]], ['prec', ['tail']], ['prec', ['tail']]],
+      [['preb', ['mul', 2]], ['preb', ['mul', 2]], ['preb', ['add', 1]], ['slice', None, hx(b'b')], ['preb', ['mul', 2]]],
+      [['prec', ['add', 2]], ['preb', ['add', 2]], ['prec', ['add', 2]], ['preb', ['add', 2]]],     # a feature added at client level, seen on the empty client a\0\0 too
   ]
   for s in seqs:
     yield {**base, 'ops': s, 'mid': min(1, len(s))}
@@ -275,7 +290,26 @@ def generate(tier, rng):
 # --------------------------------------------------------------------------
 # the real implementation
 
+_FN_OBJECTS = {}
+
+
 def _cfn(spec):
+  """The client-level function of a spec.  Equal specs give the SAME function object, so an operation
+  sequence that repeats a spec registers one object several times (the chain is a list with repeats)."""
+  key = ('c',) + tuple(spec)
+  if key not in _FN_OBJECTS:
+    _FN_OBJECTS[key] = _make_cfn(spec)
+  return _FN_OBJECTS[key]
+
+
+def _bfn(spec):
+  key = ('b',) + tuple(spec)
+  if key not in _FN_OBJECTS:
+    _FN_OBJECTS[key] = _make_bfn(spec)
+  return _FN_OBJECTS[key]
+
+
+def _make_cfn(spec):
   k = spec[0]
   if k == 'add':
     return lambda cid, ex: {**ex, 'x': ex['x'] + spec[1]}
@@ -294,7 +328,7 @@ def _cfn(spec):
   raise ValueError(spec)
 
 
-def _bfn(spec):
+def _make_bfn(spec):
   if spec[0] == 'add':
     return lambda ex: {**ex, 'x': ex['x'] + spec[1]}
   if spec[0] == 'mul':
